@@ -3,8 +3,9 @@ current tree through -overlay), runs, model/implementation diff, decision, evide
 import json, os, re, subprocess, sys, time, glob, hashlib, shutil
 
 V = '/verif'
-REPO = '/repo'
-BUILD = V + '/build'
+REPO = os.environ.get('VERIF_REPO', '/repo')
+BUILD = os.environ.get('VERIF_BUILD', V + '/build')
+EVIDENCE_DIR = os.environ.get('VERIF_EVIDENCE_DIR', V + '/evidence')
 COQ = V + '/coq'
 ENV = dict(os.environ, GOFLAGS='-mod=mod', GOPROXY='off', CARGO_NET_OFFLINE='true', PIP_NO_INDEX='1')
 ENV.pop('GOTOOLCHAIN', None) if os.environ.get('GOTOOLCHAIN') == 'local' else None
@@ -153,7 +154,7 @@ def run_model(cmd, cases, outfile, timeout=1800):
 
 # ---------------------------------------------------------------- Go harness (built from /repo's CURRENT tree)
 def build_go():
-    sh(V + '/bin/mkoverlay')
+    sh([V + '/bin/mkoverlay', REPO, BUILD])
     rc, out, dt = sh('go build -tags verif -overlay %s/overlay.json -o %s/vh ./internal/verifh/vh' % (BUILD, BUILD), cwd=REPO, timeout=1500)
     return rc == 0, out, dt
 
@@ -192,7 +193,7 @@ def known_findings(prop):
 
 
 def write_evidence(prop, tier, seed, coverage, wall, violations, assumptions):
-    os.makedirs(V + '/evidence', exist_ok=True)
+    os.makedirs(EVIDENCE_DIR, exist_ok=True)
     ev = dict(property_id=prop, tier=tier, seed=seed, level='proof', coverage=coverage, wall_s=round(wall, 2),
               violations=violations, assumptions=assumptions)
-    json.dump(ev, open(V + '/evidence/%s.json' % prop, 'w'), indent=1, sort_keys=True)
+    json.dump(ev, open(EVIDENCE_DIR + '/%s.json' % prop, 'w'), indent=1, sort_keys=True)
